@@ -145,6 +145,9 @@ pub fn input_facts(case: &Case) -> Vec<String> {
     if lone_cr(&case.input) || case.input2.as_deref().is_some_and(lone_cr) {
         v.push("input:lone-cr".to_string());
     }
+    for t in &case.tags {
+        v.push(format!("tag:{t}"));
+    }
     v
 }
 
@@ -434,9 +437,13 @@ impl<'a> Runner<'a> {
         }
         let clause = f.clause.clone();
         let mut evals = 0u64;
+        let t_shrink = Instant::now();
         let (c, f2) = {
             let mut test = |cand: &Case| -> Option<Failure> {
                 evals += 1;
+                if t_shrink.elapsed().as_secs() > 20 {
+                    return None;
+                }
                 let payload = serde_json::to_vec(cand).unwrap();
                 let (o, known) = self.eval_known(cand, index, 1, &payload);
                 match o {
@@ -562,13 +569,14 @@ impl<'a> Runner<'a> {
                             let mut best_case = case.clone();
                             let mut best_f = f;
                             let mut iters = 0u32;
+                            let shrink_t0 = Instant::now();
                             'outer: loop {
                                 if !tree.simplify() {
                                     break;
                                 }
                                 loop {
                                     iters += 1;
-                                    if iters > 1500 {
+                                    if iters > 1500 || shrink_t0.elapsed().as_secs() > 20 {
                                         break 'outer;
                                     }
                                     let cur = tree.current();
